@@ -59,7 +59,6 @@ Definition act_noself (name : bytes) (a : action) : Prop :=
 Section C04.
   Variable P : params.
   Hypothesis KO : keys_ok P.
-  Hypothesis sha_nonempty : forall x, sha256 P x <> [].
 
   Local Notation slog s := (log (st_app s)).
 
@@ -252,6 +251,9 @@ Section C04.
     forall j d k, valid_name P d = true ->
       (cnt (ackev j d k) (slog s) <= 1)%nat /\ ((1 <= cnt (ackev j d k) (slog s))%nat -> acked s d k).
 
+  Lemma acklog_ok_empty s : slog s = [] -> acklog_ok s.
+  Proof. intros E j d k _. rewrite E. cbn. split; [lia | intro; lia]. Qed.
+
   Lemma ackev_blind j d k : send_blind (ackev j d k).
   Proof. split; intros; destruct j as [|[|[|j]]]; reflexivity. Qed.
 
@@ -385,6 +387,9 @@ Section C04.
     replace (bytes_eqb (p_dst p) (st_name s)) with true by (symmetry; apply bytes_eqb_eq; exact D).
     destruct (aget (p_dst p) (st_clients s)); reflexivity.
   Qed.
+
+  (** sha256 never returns the empty string (bytes.Equal(nil, []) holds in AcknowledgePacket) *)
+  Hypothesis sha_nonempty : forall x, sha256 P x <> [].
 
   Lemma ack_keeper_noself env s m s1 :
     inv4 s -> ack_keeper P env s m = Ok s1 ->
@@ -560,5 +565,182 @@ Section C04.
     split; [apply (chain_nth _ _ _ Ch B0)|]. split; [apply (chain_final _ _ _ Ch B0)|].
     intros k Cp. destruct I' as (_ & _ & _ & K' & _).
     pose proof (K' d k Vd) as X. unfold own, below in X. rewrite Nm in X. apply X; assumption.
+  Qed.
+
+  (** ** C05: every ack effect (setAckStatus, fee payout, OnAcknowledgePacket) at most once per packet *)
+  Lemma recv_handler_cnt f env s m cb s' :
+    send_blind f -> (forall q, f (EvOnRecv q) = false) -> (forall t h, f (EvAckWritten t h) = false) ->
+    recv_handler P env s m cb = Ok s' -> cnt f (slog s') = cnt f (slog s).
+  Proof.
+    intros B E1 E2 H. apply recv_handler_ok in H. cbv zeta in H.
+    destruct H as (s1 & relayer & RK & _ & _ & Hc).
+    assert (L1 : slog s1 = slog s).
+    { apply recv_keeper_ok in RK. cbv zeta in RK. destruct RK as (_ & _ & _ & ct & bz & _ & _ & _ & ->).
+      destruct (recv_relay s _); reflexivity. }
+    assert (W : forall s3 p bz s'', write_ack P s3 p bz = Ok s'' -> cnt f (slog s'') = cnt f (slog s3)).
+    { intros s3 p bz s'' WA. apply write_ack_ok in WA as (_ & _ & _ & ->).
+      rewrite slog_add_log, slog_set_kv, cnt_app, cnt_one, E2. lia. }
+    destruct Hc as [(_ & s3 & a & bz & _ & WA & Hcb) | [(_ & _ & bz & _ & WA) | (_ & _ & ->)]].
+    - rewrite (W _ _ _ _ WA).
+      destruct Hcb as [(_ & -> & _) | (s2 & code & res & msg & CP & _ & _ & ->)]; [rewrite L1; reflexivity|].
+      destruct (code =? 0); [|rewrite L1; reflexivity].
+      rewrite (call_cnt P _ _ _ _ _ B CP), E1, L1. lia.
+    - rewrite (W _ _ _ _ WA), L1. reflexivity.
+    - rewrite L1. reflexivity.
+  Qed.
+
+  Lemma ackev_match j d k d0 k0 st r p a :
+    p_dst p = d0 -> p_seq p = k0 ->
+    ((if ackev j d k (EvAckStatus d0 k0 st) then 1 else 0) + (if ackev j d k (EvFee d0 k0 r) then 1 else 0) +
+     (if ackev j d k (EvOnAck p a) then 1 else 0) <= if bytes_eqb d d0 && N.eqb k k0 then 1 else 0)%nat.
+  Proof.
+    intros <- <-. destruct j as [|[|[|j]]]; cbn [ackev]; destruct (bytes_eqb d (p_dst p) && N.eqb k (p_seq p)); cbn; lia.
+  Qed.
+
+  Lemma acklog_exec env s a s' :
+    inv4 s -> act_noself (st_name s) a -> acklog_ok s -> exec P env s a = Ok s' -> acklog_ok s'.
+  Proof.
+    intros I NS AL H. pose proof (G_exec _ _ _ _ I NS H) as (_ & _ & AK & _).
+    assert (Same : (forall j d k, cnt (ackev j d k) (slog s') = cnt (ackev j d k) (slog s)) -> acklog_ok s').
+    { intros E j d k Vd. rewrite E. destruct (AL j d k Vd) as [A1 A2]. split; [exact A1|].
+      intro X. apply AK; [exact Vd | apply A2; exact X]. }
+    destruct a as [m cb|m cb1 cb2 cb3|cb|name ok| |name c ok|name c ok|addr chains addrs]; cbn [exec] in H.
+    - apply Same. intros j d k. apply (recv_handler_cnt _ _ _ _ _ _ (ackev_blind j d k)) in H; [exact H | |];
+        intros; destruct j as [|[|[|j]]]; reflexivity.
+    - pose proof (G_ack_handler _ _ _ _ _ _ _ I H) as [_ A0].
+      apply ack_handler_ok in H. cbv zeta in H.
+      set (p := fst (decode P (am_packet m))) in *.
+      destruct H as (s1 & a & AKp & _ & _ & Hc).
+      destruct (ack_keeper_noself _ _ _ _ I AKp) as (Src & Vd0 & Cp & S1). fold p in Src, Vd0, Cp, S1.
+      destruct Hc as [(Ns & _) | (_ & s2 & s3 & r & addr & C1 & _ & _ & C2 & C3)].
+      { exfalso. apply Ns. subst s1. exact Src. }
+      intros j d k Vd.
+      pose proof (call_cnt P _ _ _ _ _ (ackev_blind j d k) C1) as X1.
+      pose proof (call_cnt P _ _ _ _ _ (ackev_blind j d k) C2) as X2.
+      pose proof (call_cnt P _ _ _ _ _ (ackev_blind j d k) C3) as X3.
+      assert (L1 : slog s1 = slog s) by (subst s1; reflexivity). rewrite L1 in X1.
+      pose proof (ackev_match j d k (p_dst p) (p_seq p) (if a_code a =? 0 then 1 else 2) addr p a eq_refl eq_refl) as M.
+      destruct (AL j d k Vd) as [A1 A2].
+      destruct (bytes_eqb_spec d (p_dst p)) as [Ed|Nd]; [destruct (N.eqb_spec k (p_seq p)) as [Ek|Nk]|]; cbn [andb] in M.
+      + subst d k.
+        assert (Z : cnt (ackev j (p_dst p) (p_seq p)) (slog s) = 0%nat).
+        { destruct (cnt (ackev j (p_dst p) (p_seq p)) (slog s)) eqn:E; [reflexivity|]. exfalso.
+          destruct A2 as [Ab _]; [lia|]. apply Cp. unfold triple_of. rewrite Src. exact Ab. }
+        split; [lia|]. intros _. exact A0.
+      + split; [lia|]. intro X. apply AK; [exact Vd|]. apply A2. lia.
+      + split; [lia|]. intro X. apply AK; [exact Vd|]. apply A2. lia.
+    - apply Same. intros j d k. destruct (cb_fail cb); [discriminate|].
+      apply (hook_sends_cnt P _ _ (ackev_blind j d k) _ _ H).
+    - apply Same. destruct ok; inversion H; subst; reflexivity.
+    - apply Same. inversion H; subst; reflexivity.
+    - apply Same. unfold register_client in H. destruct (valid_name P name); cbn in H; [|discriminate].
+      destruct (aget name (st_clients s)); [discriminate|]. destruct ok; inversion H; subst. reflexivity.
+    - apply Same. unfold toggle_client in H. destruct (valid_name P name); cbn in H; [|discriminate].
+      destruct (aget name (st_clients s)) as [c0|]; [|discriminate].
+      destruct (c0 =? c); [discriminate|]. destruct ok; inversion H; subst. reflexivity.
+    - apply Same. inversion H; subst. reflexivity.
+  Qed.
+
+  Lemma acklog_run ops : forall s, inv4 s -> ops_noself (st_name s) ops -> acklog_ok s -> acklog_ok (run P s ops).
+  Proof.
+    induction ops as [|o ops IH]; intros s I NS AL; cbn [run]; [exact AL|].
+    inversion NS as [|o' ops' No Nops]; subst.
+    unfold step. destruct (exec P (fst o) s (snd o)) as [s'| |] eqn:E; cbn [fst]; try (apply IH; assumption).
+    pose proof (G_exec _ _ _ _ I No E) as (I' & Nm & _).
+    apply IH; [exact I' | rewrite Nm; exact Nops | eapply acklog_exec; [exact I | exact No | exact AL | exact E]].
+  Qed.
+
+  Theorem ack_effects_at_most_once ops s j d k :
+    inv4 s -> ops_noself (st_name s) ops -> acklog_ok s -> valid_name P d = true ->
+    (cnt (ackev j d k) (slog (run P s ops)) <= 1)%nat.
+  Proof. intros I NS AL Vd. apply (acklog_run ops s I NS AL j d k Vd). Qed.
+
+
+  (** ** C04: a stored commitment of ours keeps its value until exactly that packet is acknowledged *)
+  Lemma ckey_not_n k : is_ckey P k -> forall a b, k <> nextseq_key P a b.
+  Proof. intros [t ->] a b. apply (ko_cn P KO). Qed.
+
+  Lemma send_keeps_c s p ok s' : inv4 s -> send_packet P s p ok = Ok s' -> keeps (is_ckey P) s s'.
+  Proof.
+    intros I H. destruct (send_step_exact _ _ _ _ I H) as (_ & _ & _ & _ & _ & _ & Fresh & _).
+    apply send_packet_ok in H as (_ & _ & _ & _ & _ & bz & _ & ->). unfold sent_state.
+    eapply keeps_trans; [|apply keeps_add_log].
+    eapply keeps_trans; [|apply keeps_set_fresh].
+    - eapply keeps_trans; [|apply keeps_add_log].
+      eapply keeps_trans; [|apply keeps_set_cseq].
+      apply keeps_set_other. intros k K. apply ckey_not_n; exact K.
+    - rewrite sget_add_log, sget_set_cseq, sget_set_kv_other; [exact Fresh|].
+      intro E. exact (ko_cn P KO (triple_of p) _ _ E).
+  Qed.
+
+  Lemma call_keeps_c s e cb s' : inv4 s -> call_packet P s e cb = Ok s' -> keeps (is_ckey P) s s'.
+  Proof.
+    intros I H. eapply proj2.
+    eapply (call_packet_rel_inv P inv4 (keeps (is_ckey P))); [apply keeps_refl | apply keeps_trans | | | exact I | exact H].
+    - intros s0 p ok s1 I0 H0. split; [eapply inv4_send; eauto | eapply send_keeps_c; eauto].
+    - intros I0. split; [eapply inv4_frame; [exact I0 | apply frame_add_log] | apply keeps_add_log].
+  Qed.
+
+  Lemma hook_keeps_c l s s' : inv4 s -> hook_sends P s l = Ok s' -> keeps (is_ckey P) s s'.
+  Proof.
+    intros I H. eapply proj2.
+    eapply (hook_sends_rel_inv P inv4 (keeps (is_ckey P))); [apply keeps_refl | apply keeps_trans | | exact I | exact H].
+    intros s0 p ok s1 I0 H0. split; [eapply inv4_send; eauto | eapply send_keeps_c; eauto].
+  Qed.
+
+  Theorem commitment_kept_unless_acked env s a s' t v :
+    inv4 s -> exec P env s a = Ok s' -> sget (ckey P t) s = Some v ->
+    sget (ckey P t) s' = Some v \/
+    (exists m cb1 cb2 cb3, a = AAck m cb1 cb2 cb3 /\ ckey P t = ckey P (triple_of (fst (decode P (am_packet m)))) /\
+                           ack_verified P env s m).
+  Proof.
+    intros I H Hv.
+    destruct a as [m cb|m cb1 cb2 cb3|cb|name ok| |name c ok|name c ok|addr chains addrs]; cbn [exec] in H.
+    - left. apply recv_handler_ok in H. cbv zeta in H.
+      set (p := fst (decode P (rm_packet m))) in *.
+      destruct H as (s1 & relayer & RK & _ & _ & Hc).
+      destruct (recv_keeper_noself _ _ _ _ I RK) as [_ S1]. fold p in S1.
+      assert (I1 : inv4 s1) by (subst s1; eapply inv4_frame; [exact I | apply frame_set_r]).
+      assert (K1 : keeps (is_ckey P) s s1).
+      { subst s1. apply keeps_set_other. intros k [t' ->] E. eapply (ko_rc P KO); eauto. }
+      assert (W : forall s3 bz s'', write_ack P s3 p bz = Ok s'' -> keeps (is_ckey P) s3 s'').
+      { intros s3 bz s'' WA. apply write_ack_ok in WA as (_ & _ & _ & ->).
+        eapply keeps_trans; [|apply keeps_add_log]. apply keeps_set_other.
+        intros k [t' ->] E. rewrite akey_eq in E. eapply (ko_ac P KO); eauto. }
+      assert (K : keeps (is_ckey P) s s').
+      { eapply keeps_trans; [exact K1|].
+        destruct Hc as [(_ & s3 & a & bz & _ & WA & Hcb) | [(_ & _ & bz & _ & WA) | (_ & _ & ->)]].
+        - eapply keeps_trans; [|eapply W; exact WA].
+          destruct Hcb as [(_ & -> & _) | (s2 & code & res & msg & CP & _ & _ & ->)]; [apply keeps_refl|].
+          destruct (code =? 0); [eapply call_keeps_c; eauto | apply keeps_refl].
+        - eapply W; exact WA.
+        - apply keeps_refl. }
+      apply K; [eexists; reflexivity | exact Hv].
+    - pose proof (ack_accepted_verified P sha_nonempty env s m cb1 cb2 cb3 s' H) as AV.
+      apply ack_handler_ok in H. cbv zeta in H.
+      set (p := fst (decode P (am_packet m))) in *.
+      destruct H as (s1 & a & AKp & _ & _ & Hc).
+      destruct (ack_keeper_noself _ _ _ _ I AKp) as (Src & Vd0 & Cp & S1). fold p in Src, Vd0, Cp, S1.
+      destruct (bytes_eq_dec (ckey P t) (ckey P (triple_of p))) as [E|Ne].
+      + right. exists m, cb1, cb2, cb3. split; [reflexivity|]. split; [exact E | exact AV].
+      + left.
+        assert (I1 : inv4 s1) by (subst s1; eapply inv4_frame; [exact I | apply frame_del_c]).
+        assert (V1 : sget (ckey P t) s1 = Some v) by (subst s1; rewrite sget_del_kv_other; assumption).
+        destruct Hc as [(_ & ->) | (_ & s2 & s3 & r & addr & C1 & _ & _ & C2 & C3)]; [exact V1|].
+        pose proof (proj1 (inv4_call_gen _ _ _ _ I1 C1)) as I2.
+        pose proof (proj1 (inv4_call_gen _ _ _ _ I2 C2)) as I3.
+        apply (call_keeps_c _ _ _ _ I3 C3); [eexists; reflexivity|].
+        apply (call_keeps_c _ _ _ _ I2 C2); [eexists; reflexivity|].
+        apply (call_keeps_c _ _ _ _ I1 C1); [eexists; reflexivity | exact V1].
+    - left. destruct (cb_fail cb); [discriminate|].
+      apply (hook_keeps_c _ _ _ I H); [eexists; reflexivity | exact Hv].
+    - left. destruct ok; inversion H; subst; exact Hv.
+    - left. inversion H; subst; exact Hv.
+    - left. unfold register_client in H. destruct (valid_name P name); cbn in H; [|discriminate].
+      destruct (aget name (st_clients s)); [discriminate|]. destruct ok; inversion H; subst. exact Hv.
+    - left. unfold toggle_client in H. destruct (valid_name P name); cbn in H; [|discriminate].
+      destruct (aget name (st_clients s)) as [c0|]; [|discriminate].
+      destruct (c0 =? c); [discriminate|]. destruct ok; inversion H; subst. exact Hv.
+    - left. inversion H; subst. exact Hv.
   Qed.
 End C04.
